@@ -100,11 +100,16 @@ class HTTPChannel(wasyncore.dispatcher):
             #    because it's either data left over from task output
             #    or a 100 Continue line sent within "received".
             flush = self._flush_some_if_lockable
-        elif self.total_outbufs_len >= self.adj.send_bytes:
+        elif (
+            self.total_outbufs_len >= self.adj.send_bytes
+            or self.total_outbufs_len > self.adj.outbuf_high_watermark
+        ):
             # 1. There's a running task, so we need to try to lock
             #    the outbuf before sending
             # 2. Only try to send if the data in the out buffer is larger
-            #    than self.adj_bytes to avoid TCP fragmentation
+            #    than self.adj_bytes to avoid TCP fragmentation, or if the
+            #    task may be paused waiting for us to get below the high
+            #    watermark (send_bytes can be larger than the watermark)
             flush = self._flush_some_if_lockable
         else:
             # 1. There's not enough data in the out buffer to bother to send
